@@ -220,6 +220,35 @@ pub fn build_module(log: Log, subs: SubRegistry, auto_sub: bool, hang: tokio::sy
 		.unwrap();
 	}
 	{
+		// like `blob`, but asynchronous and slow: [n, kind, delay in ms]
+		let log = log.clone();
+		m.register_async_method("ablob", move |p, _, ext| {
+			let log = log.clone();
+			async move {
+				log_invocation(&log, &ext, "ablob", &p);
+				let (n, kind, delay): (usize, u64, u64) = p.parse()?;
+				if delay > 0 {
+					tokio::time::sleep(Duration::from_millis(delay)).await;
+				}
+				Ok::<String, ErrorObjectOwned>(blob_string(n, kind))
+			}
+		})
+		.unwrap();
+	}
+	{
+		// a blocking method that panics with a long message: [n]
+		let log = log.clone();
+		m.register_blocking_method("bpanicn", move |p, _, ext| {
+			log_invocation(&log, &ext, "bpanicn", &p);
+			let n: usize = p.one().unwrap_or(0);
+			if true {
+				panic!("{PANIC_MARKER} {}", "x".repeat(n));
+			}
+			0u8
+		})
+		.unwrap();
+	}
+	{
 		let log = log.clone();
 		m.register_method("failblob", move |p, _, ext| {
 			log_invocation(&log, ext, "failblob", &p);
